@@ -2457,7 +2457,7 @@ class Convex:
     def __neg__(self):
 
         return Convex(self.affine_in, -self.affine_out, self.xtype, -self.sign,
-                      self.multiplier,
+                      self.multiplier, self.sum_axis,
                       params=self.params)
 
     def __add__(self, other):
@@ -2478,7 +2478,7 @@ class Convex:
 
         new_convex = Convex(affine_in, affine_out,
                             self.xtype, self.sign, self.multiplier,
-                            params=self.params)
+                            self.sum_axis, params=self.params)
 
         return new_convex
 
@@ -2508,7 +2508,7 @@ class Convex:
 
         return Convex(self.affine_in, other * self.affine_out,
                       self.xtype, np.sign(other)*self.sign, multiplier,
-                      params=self.params)
+                      self.sum_axis, params=self.params)
 
     def __rmul__(self, other):
 
@@ -2521,7 +2521,8 @@ class Convex:
             raise ValueError('Nonconvex constraints.')
 
         return CvxConstr(left.model, left.affine_in, left.affine_out,
-                         left.multiplier, left.xtype, params=left.params)
+                         left.multiplier, left.xtype, params=left.params,
+                         sum_axis=left.sum_axis)
 
     def __ge__(self, other):
 
@@ -2530,7 +2531,8 @@ class Convex:
             raise ValueError('Nonconvex constraints.')
 
         return CvxConstr(right.model, right.affine_in, right.affine_out,
-                         right.multiplier, right.xtype, params=right.params)
+                         right.multiplier, right.xtype, params=right.params,
+                         sum_axis=right.sum_axis)
 
     def __eq__(self, other):
 
@@ -2538,7 +2540,8 @@ class Convex:
 
     def sum(self, axis=None):
 
-        if self.xtype not in 'XL':
+        if self.xtype not in 'XL' or self.sum_axis is not False or \
+                isinstance(self, PerspConvex):
             raise ValueError('Convex functions do not support the sum() method.')
 
         return Convex(self.affine_in, self.affine_out.sum(axis=axis),
@@ -2576,9 +2579,15 @@ class Convex:
             elif self.xtype == 'Q':
                 output = self.multiplier**2*self.sign*(value_in**2).sum() + value_out
             elif self.xtype == 'X':
-                output = self.multiplier*self.sign*np.exp(value_in) + value_out
+                output = self.multiplier*self.sign*np.exp(value_in)
+                if self.sum_axis is not False:
+                    output = output.sum(axis=self.sum_axis)
+                output = output + value_out
             elif self.xtype == 'L':
-                output = - self.multiplier*self.sign*np.log(value_in) + value_out
+                output = - self.multiplier*self.sign*np.log(value_in)
+                if self.sum_axis is not False:
+                    output = output.sum(axis=self.sum_axis)
+                output = output + value_out
             elif self.xtype == 'F':
                 output = self.multiplier*self.sign*np.log(1+np.exp(value_in)) + value_out
             elif self.xtype == 'P':
@@ -3061,7 +3070,8 @@ class CvxConstr:
     The CvxConstr class creates an object of convex constraints.
     """
 
-    def __init__(self, model, affine_in, affine_out, multiplier, xtype, params=None):
+    def __init__(self, model, affine_in, affine_out, multiplier, xtype, params=None,
+                 sum_axis=False):
 
         self.model = model
         self.affine_in = affine_in
@@ -3069,6 +3079,7 @@ class CvxConstr:
         self.multiplier = multiplier
         self.xtype = xtype
         self.params = params
+        self.sum_axis = sum_axis
 
     def __repr__(self):
 
@@ -4444,12 +4455,17 @@ class DecConvex(Convex):
 
         super().__init__(convex.affine_in, convex.affine_out,
                          convex.xtype, convex.sign, convex.multiplier,
-                         params=convex.params)
+                         convex.sum_axis, params=convex.params)
         self.event_adapt = event_adapt
 
     def __neg__(self):
 
         expr = super().__neg__()
+        return DecConvex(expr, self.event_adapt)
+
+    def sum(self, axis=None):
+
+        expr = super().sum(axis)
         return DecConvex(expr, self.event_adapt)
 
     def __add__(self, other):
@@ -4917,7 +4933,7 @@ class DecCvxConstr(CvxConstr):
 
         super().__init__(constr.model, constr.affine_in,
                          constr.affine_out, constr.multiplier, constr.xtype,
-                         params=constr.params)
+                         params=constr.params, sum_axis=constr.sum_axis)
         self.event_adapt = event_adapt
 
 
